@@ -1,0 +1,41 @@
+//go:build verif
+
+package lite
+
+import (
+	"github.com/go-logr/logr"
+	"go.minekube.com/gate/pkg/edition/java/lite/config"
+	"go.minekube.com/gate/pkg/edition/java/netmc"
+	"go.minekube.com/gate/pkg/edition/java/proto/packet"
+)
+
+// Verification hooks for property C30 (add-only, no logic: thin forwarding functions).
+
+// C30FindRoute forwards to findRoute and returns the per-attempt backend selector.
+func C30FindRoute(
+	routes []config.Route,
+	log logr.Logger,
+	client netmc.MinecraftConn,
+	handshake *packet.Handshake,
+	strategyManager *StrategyManager,
+) (route *config.Route, routeHost string, next func() (string, bool), err error) {
+	_, _, route, routeHost, nextBackend, err := findRoute(routes, log, client, handshake, strategyManager)
+	if nextBackend != nil {
+		next = func() (string, bool) {
+			addr, _, ok := nextBackend()
+			return addr, ok
+		}
+	}
+	return route, routeHost, next, err
+}
+
+// C30TryBackends forwards to tryBackends with a caller-supplied dial function.
+func C30TryBackends(next func() (string, bool), try func(backendAddr string) error) (string, error) {
+	addr, _, _, err := tryBackends(func() (string, logr.Logger, bool) {
+		a, ok := next()
+		return a, logr.Discard(), ok
+	}, func(log logr.Logger, backendAddr string) (logr.Logger, struct{}, error) {
+		return log, struct{}{}, try(backendAddr)
+	})
+	return addr, err
+}
